@@ -1,0 +1,17 @@
+//go:build verif
+
+package wallet
+
+import (
+	dbm "github.com/33cn/chain33/common/db"
+)
+
+// VerifWrapStoreDB re-creates the wallet's store over wrap(current store database).
+// Verification hook (build tag verif only): lets a harness observe individual store accesses
+// (a rendez-vous point inside ProcWalletSetPasswd / ProcWalletUnLock) and make a batch write fail.
+// Call it right after New, before SetQueueClient.
+func (wallet *Wallet) VerifWrapStoreDB(wrap func(dbm.DB) dbm.DB) {
+	wallet.mtx.Lock()
+	defer wallet.mtx.Unlock()
+	wallet.walletStore = newStore(wrap(wallet.walletStore.GetDB()))
+}
